@@ -190,6 +190,35 @@ func runC19(seed int64, count int, replay string) {
 		}
 		emit("C19 conc 1 %d %d 0", len(held), double)
 	}
+	// many buffers of one class parked in the pool at the same time, then taken out again and held together
+	for _, n := range []int{3, 9, 12, 20} {
+		emit("#case parked-%d", n)
+		p := pbytes.New(65536)
+		var bufs []*[]byte
+		for i := 0; i < n; i++ {
+			b := make([]byte, 0, 2048)
+			bufs = append(bufs, &b)
+		}
+		for _, b := range bufs {
+			p.Put(b)
+		}
+		seen := map[unsafe.Pointer]bool{}
+		dup, short := 0, 0
+		var got []*[]byte
+		for i := 0; i < n; i++ {
+			b := p.Get(2000)
+			if cap(*b) < 2000 {
+				short++
+			}
+			ptr := unsafe.Pointer(unsafe.SliceData((*b)[:cap(*b)]))
+			if seen[ptr] {
+				dup++
+			}
+			seen[ptr] = true
+			got = append(got, b)
+		}
+		emit("C19 conc 1 %d %d %d", n, dup, short)
+	}
 	for h := 0; h < count; h++ {
 		max := c19Maxes[rng.Intn(len(c19Maxes))]
 		nops := 10 + rng.Intn(60)
